@@ -213,7 +213,7 @@ class Prop:
         return cs
 
     def project(self, out):
-        return out
+        return out.split(' AGAIN=')[0]
 
     def nontrivial(self, c):
         return len(c.line.split(' ')[2]) > 4
@@ -224,6 +224,9 @@ class Prop:
         b = b'' if t[2] == '-' else bytes.fromhex(t[2])
         if 'panic' in out or 'TOOLCRASH' in out or 'rawerr' in out:
             return 'scanner does not return a diagnostic: ' + out
+        if ' AGAIN=' in out:
+            return 'Check() of the same Document answers differently after %s (%s), first asked it answers %s' % (
+                out.split(' AGAIN=')[1].split(':')[0], out.split(' AGAIN=')[1].split(':', 1)[1][:40], re.search(r'C=(\S+)', out).group(1))
         m = re.match(r'L=(\S+) C=(\S+) N=(\S+)\Z', out)
         if not m:
             return 'unreadable result ' + out
